@@ -92,8 +92,8 @@ PROPS = {
              "the same position, to the same SAN value and the same move), san_output_injective (distinct legal moves get distinct "
              "texts). INPUT, for every SAN value / byte string: san_input_sound (a move is returned only if it is legal and agrees "
              "with piece, destination, origin hints, capture mark and promotion), san_input_unique, san_ambiguity (two different agreeing "
-             "legal moves ⇒ Ambiguity naming two of them, never a silent choice), search_spec, sanCandidates_spec, san_make_likes",
-             ["the figurine (UTF-8) style of the styled list is differential only"],
+             "legal moves ⇒ Ambiguity naming two of them, never a silent choice), search_spec, sanCandidates_spec, san_make_likes; Props/C09_styles: san_reparse (parse–format–parse of ANY parsed SAN value), styled_san / styled_sanUtf8 / styled_uci / styled_total (the styled list's move texts in all three styles are the standard ones and never fail)",
+             [],
              "Lean 4 theorems over all valid positions, legal moves, SAN values and byte strings; differential vs Spec.San.write / Spec.San.denotes ties the model to the code",
              "§6 C09", 0.6, 1.0),
     "C10": P("proof", "uci_move_roundtrip: in every board with Shape (every validated position) each well-formed semilegal move, written "
